@@ -3,8 +3,8 @@ from .. import AnalysisBroken
 from ..eff import check_pure_params
 from ..libmodels import LIB_FACTS
 from ..rf import RFContext
-from ..rules import Equiv, canon_binders, canon_params, check_equiv, compare_function, std_rewrites, where_of
-from ..terms import NONE, const, get_arg, head, is_const, show, strip, strip_all, subst, walk
+from ..rules import inline_new_helpers, rewrite, Equiv, canon_binders, canon_params, check_equiv, compare_function, std_rewrites, where_of
+from ..terms import FALSE, NONE, const, get_arg, head, is_const, show, strip, strip_all, subst, walk
 
 CLAIMED = True
 LEVEL = "other"
@@ -52,6 +52,21 @@ def cdist_rewrite(t):
                 continue
             kws.append((k, v))
         return ("call", t[1], t[2], tuple(kws))
+    # M[numpy.triu_indices(M.shape[0], k=1)] is the row-major strict upper triangle == squareform(M, checks=False)
+    if head(t) == "sub":
+        M, ix = strip(t[1]), strip(t[2])
+        tri = None
+        if head(ix) == "tuple" and len(ix[1]) == 2 and all(head(strip(x)) == "item" and strip(x)[2] == k for k, x in enumerate(ix[1])) and strip(ix[1][0])[1] == strip(ix[1][1])[1]:
+            tri = strip(strip(ix[1][0])[1])
+        elif head(ix) == "call":
+            tri = ix
+        if tri is not None and head(tri) == "call" and strip(tri[1]) == ("glob", "numpy.triu_indices"):
+            args = dict(tri[3])
+            n = tri[2][0] if tri[2] else args.get("n")
+            k = tri[2][1] if len(tri[2]) > 1 else args.get("k")
+            shape0 = ("sub", ("attr", M, "shape"), const(0))
+            if n is not None and k is not None and is_const(strip(k), 1) and strip_all(n) in (strip_all(shape0), ("call", ("glob", "builtins.len"), (M,), ())) and len(tri[2]) + len(tri[3]) == 2:
+                return ("call", ("glob", "scipy.spatial.distance.squareform"), (), (("X", t[1]), ("checks", FALSE)))
     return t
 
 
@@ -64,9 +79,35 @@ def scorer_of(r, initq, specsrc=None):
     return s, s.env[key]
 
 
+def resolve_bound_methods(r, s, val):
+    """self._helper (a method of the class under construction) used as a callable  ->  lambda with the method's body, attributes of self
+    replaced by the values the constructor has stored so far."""
+    cls = s.func.cls
+    selfp = ("param", s.params[0][0])
+
+    def rw(t):
+        if head(t) == "attr" and strip(t[1]) == selfp and cls:
+            key = ("@attr", selfp, t[2])
+            if key in s.env and t[2] != "_scorer":
+                return s.env[key]
+            m = r.P.find_method(cls, t[2])
+            if m:
+                ms = r.A.summary(m)
+                if ms.is_generator:
+                    return t
+                lamid = ("#meth", m)
+                params = tuple(ms.params[1:])
+                body = subst(ms.ret, {("param", p[0]): ("lparam", lamid, p[0]) for p in params})
+                body = subst(body, {("param", ms.params[0][0]): selfp})
+                return ("lam", lamid, params, rewrite(body, rw))
+        return t
+    return rewrite(val, rw)
+
+
 def check_scorer(r, rule, initq):
     rep = r.rep
     s, val = scorer_of(r, initq)
+    val = resolve_bound_methods(r, s, val)
     rep.analysed(initq)
     import ast
     tree = ast.parse(SPEC)
@@ -85,6 +126,29 @@ def check_scorer(r, rule, initq):
                 strip_all(val), strip_all(spv), where_of(r.P, s.func, s.func.node), eq=eq, key="weight tuple")
 
 
+def _as_list(p):
+    return (strip_all(("call", ("glob", "builtins.list"), (p,), ())), p)
+
+
+def _len_forms(p):
+    return (strip_all(("call", ("glob", "builtins.len"), (("call", ("glob", "builtins.list"), (p,), ()),), ())), ("call", ("glob", "builtins.len"), (p,), ()))
+
+
+def _index_loop(lp):
+    """(index term, lo, hi, collection, element term) of ``for i in range(lo, hi)`` / ``for i, a in enumerate(coll)``; None otherwise."""
+    it = strip(lp.iterable)
+    if head(it) != "call":
+        return None
+    f = strip(it[1])
+    if f == ("glob", "builtins.range") and not it[3] and 1 <= len(it[2]) <= 2:
+        lo, hi = (const(0), it[2][0]) if len(it[2]) == 1 else (it[2][0], it[2][1])
+        return (lp.elem, lo, hi, None, None)
+    if f == ("glob", "builtins.enumerate") and len(it[2]) == 1 and (not it[3] or (len(it[3]) == 1 and it[3][0][0] == "start" and is_const(strip(it[3][0][1]), 0))):
+        coll = it[2][0]
+        return (("item", lp.elem, 0), const(0), ("call", ("glob", "builtins.len"), (coll,), ()), coll, ("item", lp.elem, 1))
+    return None
+
+
 def check_pdist(r, rule):
     """LNE form of the functional pdist."""
     rep = r.rep
@@ -96,41 +160,65 @@ def check_pdist(r, rule):
     strings, metric = ("param", pn[0]), ("param", pn[1])
     stores = [e for e in s.events_of("setitem") if strip_all(e["obj"]) == strip_all(s.ret)]
     if len(stores) != 1:
-        raise AnalysisBroken(f"{q}: expected one store into the condensed vector, found {len(stores)}")
+        rep.require(False, f"{q}: expected one store into the condensed vector, found {len(stores)}; cannot decide [{rule}]")
+        return
     e = stores[0]
     w = where_of(r.P, s.func, e.node)
     lps = [s.loops[l] for l in e.ctx.loops]
     ctx = RFContext()
     LEN = None
-    ok_pairs, found = False, ""
-    i = j = None
-    if len(lps) == 2 and all(head(strip(lp.iterable)) == "call" and strip(strip(lp.iterable)[1]) == ("glob", "builtins.range") for lp in lps):
-        (o, inn) = lps
-        oa, ia = strip(o.iterable)[2], strip(inn.iterable)[2]
-        olo, ohi = (const(0), oa[0]) if len(oa) == 1 else (oa[0], oa[1])
-        ilo, ihi = (const(0), ia[0]) if len(ia) == 1 else (ia[0], ia[1])
-        m = ctx.rf(ihi)
-        i, j = o.elem, inn.elem
-        c1 = ctx.rf(olo).is_const() and ctx.rf(olo).const_value() == 0
-        d = m - ctx.rf(ohi)
-        c2 = d.is_const() and d.const_value() in (0, 1)                    # range(m) or range(m - 1)
-        c3 = (ctx.rf(ilo) - ctx.rf(i)).is_const() and (ctx.rf(ilo) - ctx.rf(i)).const_value() == 1
-        LEN = ihi
-        ok_pairs = c1 and c2 and c3
-        found = f"for i in range({show(olo, 10)}, {show(ohi, 40)}): for j in range({show(ilo, 40)}, {show(ihi, 40)})"
-    elif len(lps) == 1 and head(strip(lps[0].iterable)) == "call" and strip(strip(lps[0].iterable)[1]) == ("glob", "builtins.enumerate"):
-        it = strip(strip(lps[0].iterable)[2][0])
-        if head(it) == "call" and strip(it[1]) == ("glob", "itertools.combinations") and is_const(it[2][1], 2) and head(strip(it[2][0])) == "call" and strip(strip(it[2][0])[1]) == ("glob", "builtins.range"):
-            LEN = strip(it[2][0])[2][0]
-            i, j = ("item", ("item", lps[0].elem, 1), 0), ("item", ("item", lps[0].elem, 1), 1)
-            ok_pairs = len(strip(it[2][0])[2]) == 1
-            found = show(lps[0].iterable, 80)
-    rep.ob(rule, q, ok_pairs, "pairs are enumerated as i < j < m in lexicographic order", w, expected="for i in range(0, m-1): for j in range(i+1, m)  (or enumerate(combinations(range(m), 2)))", found=found or "loop nest outside idiom", key="pdist pairs")
+    ok_pairs, found = None, ""
+    ops = None          # accepted terms for the two operands
+    if len(lps) == 2:
+        o, inn = _index_loop(lps[0]), strip(lps[1].iterable)
+        if o is not None:
+            i, olo, ohi, ocoll, oelem = o
+            first = [("sub", c, i) for c in _as_list(strings)] + ([oelem] if ocoll is not None and strip_all(ocoll) in _as_list(strings) else [])
+            il = _index_loop(lps[1])
+            if il is not None and il[3] is None:
+                j, ilo, ihi = il[0], il[1], il[2]
+                m = ctx.rf(ihi)
+                c1 = ctx.rf(olo).is_const() and ctx.rf(olo).const_value() == 0
+                d = m - ctx.rf(strip_all(ohi))
+                c2 = (d.is_const() and d.const_value() in (0, 1)) or (ocoll is not None and strip_all(ihi) in _len_forms(strings) and strip_all(ohi) in _len_forms(strings))    # range(m) or range(m - 1)
+                c3 = (ctx.rf(ilo) - ctx.rf(i)).is_const() and (ctx.rf(ilo) - ctx.rf(i)).const_value() == 1
+                LEN = ihi
+                ok_pairs = c1 and c2 and c3
+                ops = (first, [("sub", c, j) for c in _as_list(strings)])
+                found = f"for i in {show(lps[0].iterable, 40)}: for j in range({show(ilo, 40)}, {show(ihi, 40)})"
+            elif head(inn) == "sub" and strip_all(inn[1]) in _as_list(strings) and head(strip(inn[2])) == "slice":
+                # for b in strings[i + 1:]
+                sl = strip(inn[2])
+                d = ctx.rf(sl[1]) - ctx.rf(i) if not is_const(sl[1], None) else None
+                c1 = ctx.rf(olo).is_const() and ctx.rf(olo).const_value() == 0
+                ok_pairs = c1 and d is not None and d.is_const() and d.const_value() == 1 and is_const(sl[2], None) and is_const(sl[3], None) and strip_all(ohi) in _len_forms(strings)
+                LEN = ohi
+                ops = (first, [lps[1].elem])
+                found = f"for i in {show(lps[0].iterable, 40)}: for b in {show(inn, 40)}"
+    elif len(lps) == 1:
+        o = _index_loop(lps[0])
+        if o is not None and o[3] is not None:
+            it = strip(o[3])
+            if head(it) == "call" and strip(it[1]) == ("glob", "itertools.combinations") and len(it[2]) == 2 and is_const(it[2][1], 2):
+                base = strip(it[2][0])
+                pair = o[4]
+                if head(base) == "call" and strip(base[1]) == ("glob", "builtins.range"):
+                    LEN = base[2][0]
+                    ok_pairs = len(base[2]) == 1
+                    ops = ([("sub", c, ("item", pair, 0)) for c in _as_list(strings)], [("sub", c, ("item", pair, 1)) for c in _as_list(strings)])
+                elif strip_all(base) in _as_list(strings):
+                    LEN = ("call", ("glob", "builtins.len"), (base,), ())
+                    ok_pairs = True
+                    ops = ([("item", pair, 0)], [("item", pair, 1)])
+                found = show(lps[0].iterable, 80)
+    if ok_pairs is None:
+        rep.require(False, f"{q}: the loop nest around the store into the condensed vector is outside the idiom list (range / enumerate / slice / combinations); cannot decide [{rule}]")
+        return
+    rep.ob(rule, q, ok_pairs, "pairs are enumerated as i < j < m in lexicographic order", w, expected="for i in range(0, m-1): for j in range(i+1, m)  (or enumerate(combinations(.., 2)))", found=found or "loop nest outside idiom", key="pdist pairs")
     if not ok_pairs:
         return
     # m is the number of strings
-    lst = ("call", ("glob", "builtins.len"), (("call", ("glob", "builtins.list"), (strings,), ()),), ())
-    okm = strip_all(LEN) in (strip_all(lst), ("call", ("glob", "builtins.len"), (strings,), ()))
+    okm = strip_all(LEN) in _len_forms(strings)
     rep.ob(rule, q, okm, "m is the number of strings", w, expected="m = len(list(strings))", found=show(LEN, 40), key="pdist m")
     # counter
     idx = strip(e["index"])
@@ -148,23 +236,22 @@ def check_pdist(r, rule):
         okk = idx == ("item", lps[0].elem, 0)
     rep.ob(rule, q, okk, "the condensed index starts at 0 and is incremented once per pair, after the store (A.7: equals m*i + j - (i+2)(i+1)/2)", w, expected="k = 0; dm[k] = ...; k += 1", found=foundk, key="pdist counter")
     # stored value
-    v = strip(e["value"])
-    okv = head(v) == "call" and len(v[2]) == 2 and strip(v[2][0]) == ("sub", strip(v[2][0])[1], i) and strip(v[2][1]) == ("sub", strip(v[2][1])[1], j) if head(v) == "call" and all(head(strip(a)) == "sub" for a in v[2]) else False
-    okc = okv and all(strip_all(strip(a)[1]) in (strip_all(("call", ("glob", "builtins.list"), (strings,), ())), strings) for a in v[2])
+    v = strip(inline_new_helpers(r, e["value"]))
+    okv = head(v) == "call" and len(v[2]) == 2 and strip_all(v[2][0]) in [strip_all(x) for x in ops[0]] and strip_all(v[2][1]) in [strip_all(x) for x in ops[1]]
     okkw = head(v) == "call" and any(k == "**" and strip(x)[0] == "param" for k, x in v[3])
     fn = strip(v[1]) if head(v) == "call" else None
     okf = fn is not None and head(fn) == "ite" and strip_all(fn[1]) == ("cmp", "is", metric, NONE) and strip(fn[3]) == metric and head(strip(fn[2])) == "glob" and "evenshtein" in strip(fn[2])[1]
-    rep.ob(rule, q, okv and okc, "entry k is metric(strings[i], strings[j]) - first operand the earlier string", w, expected="metric(strings[i], strings[j], **kwargs)", found=show(v, 100), key="pdist operands")
+    rep.ob(rule, q, okv, "entry k is metric(strings[i], strings[j]) - first operand the earlier string", w, expected="metric(strings[i], strings[j], **kwargs)", found=show(v, 100), key="pdist operands")
     rep.ob(rule, q, okkw, "extra keyword arguments are forwarded to the metric", w, expected="**kwargs", found="forwarded" if okkw else "not forwarded", key="pdist kwargs")
     rep.ob(rule, q, okf, "the default metric is the Levenshtein distance, a given metric is used as is", w, expected="levenshtein_distance if metric is None else metric", found=show(fn, 80), key="pdist metric")
     # allocation size
     alloc = strip(s.ret)
     oka = head(alloc) == "call" and strip(alloc[1]) in (("glob", "numpy.empty"), ("glob", "numpy.zeros")) and alloc[2]
     if oka:
-        size = ctx.rf(strip(alloc[2][0]))
-        mm = ctx.rf(LEN)
-        want = ctx.rf(("bin", "//", ("bin", "*", LEN, ("bin", "-", LEN, const(1))), const(2)))
-        oka = size.same(want)
+        size = ctx.rf(strip_all(alloc[2][0]))
+        L0 = strip_all(LEN)
+        want = ctx.rf(("bin", "//", ("bin", "*", L0, ("bin", "-", L0, const(1))), const(2)))
+        oka = size.same(want) or any(size.same(ctx.rf(("bin", "//", ("bin", "*", lf, ("bin", "-", lf, const(1))), const(2)))) for lf in _len_forms(strings))
     rep.ob(rule, q, bool(oka), "the condensed vector has m(m-1)/2 entries", where, expected="np.empty(m*(m-1)//2)", found=show(alloc, 80), key="pdist size")
     rep.ob(rule, q, not e.ctx.guards, "no pair is skipped", w, expected="unguarded store", found=f"{len(e.ctx.guards)} guard(s)", key="pdist unguarded")
 
@@ -181,7 +268,8 @@ def check_cdist(r, rule):
     targets = {strip_all(leaf) for _, leaf in leaves(lift_ite(strip_all(s.ret)))}
     stores = [e for e in s.events_of("setitem") if strip_all(e["obj"]) in targets]
     if not stores:
-        raise AnalysisBroken(f"{q}: no store into the matrix found")
+        rep.require(False, f"{q}: no store into the matrix found; cannot decide [{rule}]")
+        return
     # every store must put metric(A[a], B[b]) at [a, b]; several stores (fast paths, mirrored writes) are each held to that
     for e2 in stores:
         idx2, v2 = strip(e2["index"]), strip(e2["value"])
@@ -196,27 +284,30 @@ def check_cdist(r, rule):
     e = stores[0]
     w = where_of(r.P, s.func, e.node)
     lps = [s.loops[l] for l in e.ctx.loops]
-    LA = lambda p: (strip_all(("call", ("glob", "builtins.len"), (("call", ("glob", "builtins.list"), (p,), ()),), ())), ("call", ("glob", "builtins.len"), (p,), ()))
-    ok = len(lps) == 2
-    if ok:
-        for lp, p in zip(lps, (A, B)):
-            it = strip(lp.iterable)
-            ok = ok and head(it) == "call" and strip(it[1]) == ("glob", "builtins.range") and strip_all(it[2][-1]) in LA(p) and (len(it[2]) == 1 or is_const(it[2][0], 0))
+    ils = [_index_loop(lp) for lp in lps]
+    if len(lps) != 2 or any(x is None for x in ils):
+        rep.require(False, f"{q}: the loop nest around the store into the matrix is outside the idiom list (two range / enumerate loops); cannot decide [{rule}]")
+        return
+    ok = True
+    for il, p in zip(ils, (A, B)):
+        idx_, lo, hi, coll, elem = il
+        ok = ok and is_const(strip(lo), 0) and strip_all(hi) in _len_forms(p) and (coll is None or strip_all(coll) in _as_list(p))
     rep.ob(rule, q, ok and not e.ctx.guards, "every (i, j) with i < mA, j < mB is visited", w, expected="for i in range(mA): for j in range(mB)", found="; ".join(show(lp.iterable, 40) for lp in lps), key="cdist ranges")
     if not ok:
         return
-    i, j = lps[0].elem, lps[1].elem
+    i, j = ils[0][0], ils[1][0]
     idx = strip(e["index"])
-    rep.ob(rule, q, idx == ("tuple", (i, j)), "the distance is stored at [i, j]", w, expected="dm[i, j]", found=show(idx, 40), key="cdist index")
-    v = strip(e["value"])
-    okv = head(v) == "call" and len(v[2]) == 2 and all(head(strip(a)) == "sub" for a in v[2]) and strip(strip(v[2][0])[2]) == i and strip(strip(v[2][1])[2]) == j \
-        and strip_all(strip(v[2][0])[1]) in (strip_all(("call", ("glob", "builtins.list"), (A,), ())), A) and strip_all(strip(v[2][1])[1]) in (strip_all(("call", ("glob", "builtins.list"), (B,), ())), B)
+    rep.ob(rule, q, strip_all(idx) == strip_all(("tuple", (i, j))), "the distance is stored at [i, j]", w, expected="dm[i, j]", found=show(idx, 40), key="cdist index")
+    v = strip(inline_new_helpers(r, e["value"]))
+    acc0 = [strip_all(("sub", c, i)) for c in _as_list(A)] + ([strip_all(ils[0][4])] if ils[0][4] is not None else [])
+    acc1 = [strip_all(("sub", c, j)) for c in _as_list(B)] + ([strip_all(ils[1][4])] if ils[1][4] is not None else [])
+    okv = head(v) == "call" and len(v[2]) == 2 and strip_all(v[2][0]) in acc0 and strip_all(v[2][1]) in acc1
     okkw = head(v) == "call" and any(k == "**" for k, x in v[3])
     rep.ob(rule, q, okv, "entry [i, j] is metric(A[i], B[j])", w, expected="metric(stringsA[i], stringsB[j], **kwargs)", found=show(v, 100), key="cdist operands")
     rep.ob(rule, q, okkw, "extra keyword arguments are forwarded to the metric", w, expected="**kwargs", found="forwarded" if okkw else "not forwarded", key="cdist kwargs")
     alloc = strip(s.ret)
     oks = head(alloc) == "call" and strip(alloc[1]) in (("glob", "numpy.empty"), ("glob", "numpy.zeros")) and alloc[2] and head(strip(alloc[2][0])) == "tuple" and len(strip(alloc[2][0])[1]) == 2 \
-        and strip_all(strip(alloc[2][0])[1][0]) in LA(A) and strip_all(strip(alloc[2][0])[1][1]) in LA(B)
+        and strip_all(strip(alloc[2][0])[1][0]) in _len_forms(A) and strip_all(strip(alloc[2][0])[1][1]) in _len_forms(B)
     rep.ob(rule, q, bool(oks), "the matrix has shape (mA, mB)", w, expected="np.empty((mA, mB))", found=show(alloc, 80), key="cdist shape")
 
 
@@ -235,7 +326,9 @@ def run(r):
     compare_function(r, "C08-LV", L + "Levenshtein.calc_pdist_vector", SPEC, "Levenshtein delegates calc_pdist_vector to its WeightedLevenshtein", fname="lev_pdist", eq=eq, key="delegate pdist")
     s = r.A.summary(L + "Levenshtein.__init__")
     v = s.env.get(("@attr", ("param", "self"), "_weighted_levenshtein"))
-    okd = v is not None and strip_all(v) == ("call", ("glob", L + "WeightedLevenshtein"), (), ())
+    vv = strip_all(v) if v is not None else None
+    okd = vv is not None and head(vv) == "call" and vv[1] == ("glob", L + "WeightedLevenshtein") and len(vv[2]) <= 3 and all(is_const(a, 1) for a in vv[2]) \
+        and all(k in ("insertion_weight", "deletion_weight", "substitution_weight") and is_const(x, 1) for k, x in vv[3])
     rep.ob("C08-LV", L + "Levenshtein.__init__", okd, "the delegate is a default-constructed (unit weight) WeightedLevenshtein", where_of(r.P, s.func, s.func.node), expected="WeightedLevenshtein()", found=show(v, 60), key="delegate ctor")
     check_pdist(r, "C08-LNE")
     check_cdist(r, "C08-LNE")
